@@ -28,6 +28,12 @@ DETECT_HOOK_RE = re.compile(r"(\n[ \t]*)(if scRef\.deCallsInc\(\) >=)")
 # monitor there while the connection's state comes and goes and an update reports the pools' states
 MONITOR_HOOK_RE = re.compile(r"(\n[ \t]*)((?:if !)?mc\.conn\.WaitForStateChange\(\w+, (\w+)\))")
 
+# fifth schedule hook: at the top of the loop body of gcpPicker.getLeastBusySubConnRef (the least-loaded scan): operation
+# `scanpark` stops a pick there when it comes to the second channel of its list — it has read the first channel's
+# counter — while completions of other calls are started; with counters that only change under the pick mutex those
+# completions wait, otherwise they run in the middle of the scan
+SCAN_HOOK_RE = re.compile(r"(func \(p \*gcpPicker\) getLeastBusySubConnRef\(\) \(\*subConnRef, error\) \{\n(?:.*\n)*?\tfor _, scRef := range p\.scRefs \{)")
+
 OTHER_CLOCK = re.compile(r"\btime\.(Since|Until)\(")
 
 class RewriteError(Exception):
@@ -57,11 +63,12 @@ def rewrite_sources(kind, pkgdir, work):
     bind_hooked = False
     detect_hooked = False
     monitor_hooked = False
+    scan_hooked = False
     if kind == "nohook":
         # real clock, no schedule hook (race-detector stress): only tell the harness so
         gen = os.path.join(work, "zz_verif_hookgen_test.go")
         shim, imp = deliver_shim(pkgdir)
-        open(gen, "w").write("//go:build verif\n\npackage grpcgcp\n\n" + imp + "\nconst verifHookInstalled = false\nconst verifBindHookInstalled = false\nconst verifDetectHookInstalled = false\nconst verifMonitorHookInstalled = false\n" + shim)
+        open(gen, "w").write("//go:build verif\n\npackage grpcgcp\n\n" + imp + "\nconst verifHookInstalled = false\nconst verifBindHookInstalled = false\nconst verifDetectHookInstalled = false\nconst verifMonitorHookInstalled = false\nconst verifScanHookInstalled = false\n" + shim)
         return {os.path.join(pkgdir, "zz_verif_hookgen_test.go"): gen}
     if kind != "vclock":
         raise RewriteError("unknown rewrite " + kind)
@@ -88,6 +95,8 @@ def rewrite_sources(kind, pkgdir, work):
         if os.path.basename(path) == "gcp_picker.go":
             new, n3 = DETECT_HOOK_RE.subn(r"\1verifHookDetect(); \2", new, count=1)
             detect_hooked = detect_hooked or n3 == 1
+            new, n5 = SCAN_HOOK_RE.subn(r"\1 verifHookScan();", new, count=1)
+            scan_hooked = scan_hooked or n5 == 1
         if new == src:
             continue
         dst = os.path.join(work, "rw_" + os.path.basename(path))
@@ -96,6 +105,6 @@ def rewrite_sources(kind, pkgdir, work):
     # tell the harness whether the hook could be placed (a refactored newSubConn: no `pickhold` operations)
     gen = os.path.join(work, "zz_verif_hookgen_test.go")
     shim, imp = deliver_shim(pkgdir)
-    open(gen, "w").write("//go:build verif\n\npackage grpcgcp\n\n" + imp + "\nconst verifHookInstalled = %s\nconst verifBindHookInstalled = %s\nconst verifDetectHookInstalled = %s\nconst verifMonitorHookInstalled = %s\n" % ("true" if hooked else "false", "true" if bind_hooked else "false", "true" if detect_hooked else "false", "true" if monitor_hooked else "false") + shim)
+    open(gen, "w").write("//go:build verif\n\npackage grpcgcp\n\n" + imp + "\nconst verifHookInstalled = %s\nconst verifBindHookInstalled = %s\nconst verifDetectHookInstalled = %s\nconst verifMonitorHookInstalled = %s\nconst verifScanHookInstalled = %s\n" % ("true" if hooked else "false", "true" if bind_hooked else "false", "true" if detect_hooked else "false", "true" if monitor_hooked else "false", "true" if scan_hooked else "false") + shim)
     out[os.path.join(pkgdir, "zz_verif_hookgen_test.go")] = gen
     return out
